@@ -35,7 +35,7 @@ pub fn dispatch(ctx: &Ctx, rep: &mut Report) -> bool {
         "C17" => more::run_c17(ctx, rep),
         "C18" => diff::run_c18(ctx, rep),
         "HUGE" => {
-            for v in 0..5 {
+            for v in 0..6 {
                 huge::huge_scenario(ctx, rep, "beyond 4 GiB", v);
                 rep.evaluations += 1;
             }
